@@ -488,14 +488,17 @@ def read_paths_case(rng, driver, rep):
     def enc(i):
         return {"solution": np.array([i, i + 0.5, -i] + [i + j for j in range(3, sold)], dtype=dt), "objective": np.array(i, dtype=dt),
                 "measures": None, "ev": np.array([i, i + 0.25], dtype=evdt)}
+    # a second extra field whose NAME extends the name of a vector field ("solution_aux" next to the columns solution_0 .. solution_k)
+    aux = rng.random() < 0.4
+    xf = {"ev": ((2,), evdt), **({"solution_aux": ((2,), dt)} if aux else {})}
     if kind == "store":
-        obj = ArrayStore({"solution": ((sold,), dt), "objective": ((), dt), "ev": ((2,), evdt)}, cap)
+        obj = ArrayStore({"solution": ((sold,), dt), "objective": ((), dt), **xf}, cap)
     elif kind == "grid":
         cap = 12
-        obj = GridArchive(solution_dim=sold, dims=[4, 3], ranges=[(0, 1), (0, 1)], dtype=dt, extra_fields={"ev": ((2,), evdt)})
+        obj = GridArchive(solution_dim=sold, dims=[4, 3], ranges=[(0, 1), (0, 1)], dtype=dt, extra_fields=xf)
     else:
         cap = 6
-        obj = CVTArchive(solution_dim=sold, cells=6, ranges=[(0, 1), (0, 1)], dtype=dt, extra_fields={"ev": ((2,), evdt)},
+        obj = CVTArchive(solution_dim=sold, cells=6, ranges=[(0, 1), (0, 1)], dtype=dt, extra_fields=xf,
                          custom_centroids=np.array([[0.1, 0.1], [0.5, 0.1], [0.9, 0.1], [0.1, 0.9], [0.5, 0.9], [0.9, 0.9]], dtype=dt))
 
     def warm_reads():
@@ -516,12 +519,13 @@ def read_paths_case(rng, driver, rep):
             e = enc(nid)
             if kind == "store":
                 idx = rng.randrange(cap)
-                obj.add(np.array([idx], dtype=np.int32), {"solution": e["solution"][None], "objective": e["objective"][None], "ev": e["ev"][None]}, {}, [])
+                obj.add(np.array([idx], dtype=np.int32), {"solution": e["solution"][None], "objective": e["objective"][None], "ev": e["ev"][None],
+                                                          **({"solution_aux": np.full((1, 2), -7.0, dtype=dt)} if aux else {})}, {}, [])
             else:
                 meas = np.array([rng.randint(0, 8) / 8.0, rng.randint(0, 8) / 8.0], dtype=dt)
                 idx = int(obj.index_of_single(meas))
                 # objective = id rises monotonically, so every add is accepted and overwrites the cell
-                info = obj.add_single(e["solution"], e["objective"], meas, ev=e["ev"])
+                info = obj.add_single(e["solution"], e["objective"], meas, ev=e["ev"], **({"solution_aux": np.full(2, -7.0, dtype=dt)} if aux else {}))
                 assert info["status"] != 0
             ops.append([0, idx, nid])
             nid += 1
